@@ -4,7 +4,36 @@ per-harness wall-clock cap and address-space cap, parsing of the regular output 
 import os, re, subprocess, time, threading, queue, shutil, hashlib, json, signal
 
 VERIF = os.path.dirname(os.path.dirname(os.path.abspath(__file__)))
-BUILD = os.path.join(VERIF, ".build")
+# VERIF_REPO (sensitivity testing only): run the same checks against a scratch worktree instead of /repo, so that several
+# seeded changes can be examined in parallel without touching /repo. Registered commands never set it.
+REPO = os.environ.get("VERIF_REPO", "/repo")
+ALT = "" if REPO == "/repo" else "_alt_" + hashlib.sha1(REPO.encode()).hexdigest()[:8]
+BUILD = os.path.join(VERIF, ".build" + ALT)
+
+
+_crate_cache = {}
+_crate_lock = threading.Lock()
+
+
+def crate_dir(group):
+    """harness crate directory; with VERIF_REPO a copy whose path dependencies point at that tree"""
+    src = os.path.join(VERIF, "harness", group)
+    if not ALT:
+        return src
+    with _crate_lock:
+        if group not in _crate_cache:
+            _crate_cache[group] = _crate_copy(group, src)
+        return _crate_cache[group]
+
+
+def _crate_copy(group, src):
+    dst = os.path.join(BUILD, "harness", group)
+    if os.path.isdir(dst):
+        shutil.rmtree(dst)
+    shutil.copytree(src, dst, ignore=shutil.ignore_patterns("target", "Cargo.lock"))
+    t = open(os.path.join(dst, "Cargo.toml")).read().replace('"/repo/', '"%s/' % REPO)
+    open(os.path.join(dst, "Cargo.toml"), "w").write(t)
+    return dst
 KANI_BASE = ["-Z", "unstable-options", "--no-memory-safety-checks", "--no-assertion-reach-checks"]
 MEM_KB = 14_000_000
 MARKER = "VERIF-REACHED"
@@ -189,6 +218,7 @@ class Pool:
         self.workers = workers or int(os.environ.get("VERIF_JOBS", "16"))
         self.root = os.path.join(BUILD, prop)
         os.makedirs(self.root, exist_ok=True)
+        self._crates = {}
         self.logdir = os.path.join(self.root, "logs")
         os.makedirs(self.logdir, exist_ok=True)
 
@@ -197,7 +227,9 @@ class Pool:
 
     def run_one(self, ob, w, extra=None, tag=""):
         res = Res(ob)
-        crate = os.path.join(VERIF, "harness", ob.group)
+        if ob.group not in self._crates:
+            self._crates[ob.group] = crate_dir(ob.group)
+        crate = self._crates[ob.group]
         logpath = os.path.join(self.logdir, ob.harness.replace("::", ".") + tag + ".log")
         rc, to, dt = _run_limited(_cmd_for(ob, self.tdir(w, ob), extra), crate, _env_for(ob), ob.timeout, logpath)
         res.time = dt
